@@ -245,7 +245,32 @@ pub fn snap_value<V: IntoValue>(v: Value<V>) -> Doc {
     }
 }
 
+/// An error type is entitled to print the kinds it is handed (`Display` / `Debug` of `ValueKind`
+/// are public API): this one does, and insists on the documented names.
+fn print_kinds(kinds: &[ValueKind]) {
+    for k in kinds {
+        let want = match k {
+            ValueKind::Null => "Null",
+            ValueKind::Boolean => "Boolean",
+            ValueKind::Integer => "Integer",
+            ValueKind::NegativeInteger => "NegativeInteger",
+            ValueKind::Float => "Float",
+            ValueKind::String => "String",
+            ValueKind::Sequence => "Sequence",
+            ValueKind::Map => "Map",
+        };
+        let (shown, debugged) = (format!("{k}"), format!("{k:?}"));
+        if shown != want || debugged != want {
+            panic!("ValueKind::{want} prints as {shown:?} (Display) / {debugged:?} (Debug)");
+        }
+    }
+}
+
 pub fn snap_kind<V: IntoValue>(k: ErrorKind<V>) -> KindSnap {
+    if let ErrorKind::IncorrectValueKind { actual, accepted } = &k {
+        print_kinds(accepted);
+        print_kinds(&[actual.kind()]);
+    }
     match k {
         ErrorKind::IncorrectValueKind { actual, accepted } => KindSnap::IncorrectValueKind {
             actual: snap_value(actual),
